@@ -41,6 +41,8 @@ def value_kind(rnd: random.Random, kind: str) -> Fraction:
         return Fraction(rnd.randint(0, 40), 8)
     if kind == "big":
         return Fraction(rnd.randint(0, 2 ** 30))
+    if kind == "offset":           # increments of the closure construction stay small …
+        return Fraction(rnd.randint(0, 6))
     raise ValueError(kind)
 
 
@@ -56,6 +58,8 @@ def sa_game(n: int, rnd: random.Random, kind: str = "int", neg_singletons: bool 
     for c in sorted(range(1, N), key=popcount):
         if popcount(c) == 1:
             v[c] = value_kind(rnd, kind) - (value_kind(rnd, kind) * 2 if neg_singletons else 0)
+            if kind == "offset":   # … while the stand-alone values are huge: intervals narrow relative to their magnitude
+                v[c] += Fraction(rnd.choice([2 ** 20, 2 ** 24, 10 ** 6, -(2 ** 22)]))
         else:
             best = max(v[a] + v[b] for a, b in proper_splits(c))
             inc = value_kind(rnd, kind) if rnd.random() < 0.7 else Fraction(0)
